@@ -171,6 +171,10 @@ class Exec:
             if isinstance(ty, TupleT) and ty.fields and attr in ty.fields:
                 i = ty.fields.index(attr)
                 return V(ty.elems[i], ty.get(base.t, i))
+            at = getattr(ty, "attrs", None)
+            if at and attr in at:
+                # sidecar-declared attribute of an opaque object (e.g. a bound method taken as a value)
+                return at[attr](base)
             if isinstance(ty, UnionT):
                 # attribute access through an optional: project to the single record alternative
                 recs = [(tag, alt) for tag, alt in ty.alts.items() if isinstance(alt, (RecT, TupleT))]
